@@ -15,6 +15,7 @@ import CallbagModel.Closed.LinearInfCost
 import CallbagModel.Closed.Prog3Cost
 import CallbagModel.Closed.Prog3CostTake
 import CallbagModel.Closed.Prog3CostFlat
+import CallbagModel.Closed.Prog3Wide
 /-!
 # C06 — iterable programming: pull pipelines compute the corresponding list function
 
@@ -359,5 +360,23 @@ theorem C06_program_cost_flat (p : Closed.Prog3) (hok : p.ok) (he : p.lazy2) :
       (Closed.thenM p.toM Closed.forEachM).nexts s.st ≤ (sem p.toPipe none).2 ∧
       (s.stack = [] → s.tr ≠ [] → (Closed.thenM p.toM Closed.forEachM).nexts s.st = (sem p.toPipe none).2) :=
   Closed.prog3_cost_flat p hok he
+
+/-! ## the widest domain: `Prog3.ok2`
+
+The argument of a `flatRep` may be linear OR take-free (`tf2`: sources, non-`take` stages, `concat!`, nested `flatRep`): such programs
+deliver and end only when pulled, which is all `flatten` needs (`PullOnly` from the join machinery).  Still excluded, for the recorded
+reason (observation O7): `flatRep` over a program in which a member ends by `take`. -/
+
+theorem C06_every_program_wide (p : Closed.Prog3) (hok : p.ok2) :
+    (∀ s, SReach (Closed.thenM p.toM Closed.forEachM).M s →
+      BasicSafe s ∧ applied s.tr <+: listSem p.toPipe ∧ (s.stack = [] → s.tr ≠ [] → applied s.tr = listSem p.toPipe)) ∧
+    (∀ s, SReach (Closed.thenM p.toM Closed.forEachM).M s → Safe s ∧ SafeFor 4 s ∧ SafeFor 5 s) :=
+  ⟨Closed.prog3_correct2 p hok, Closed.prog3_safe2 p hok⟩
+
+theorem C06_program_cost_wide (p : Closed.Prog3) (hok : p.ok2) (he : p.lazy2) :
+    ∀ s, SReach (Closed.thenM p.toM Closed.forEachM).M s →
+      (Closed.thenM p.toM Closed.forEachM).nexts s.st ≤ (sem p.toPipe none).2 ∧
+      (s.stack = [] → s.tr ≠ [] → (Closed.thenM p.toM Closed.forEachM).nexts s.st = (sem p.toPipe none).2) :=
+  Closed.prog3_cost_wide p hok he
 
 end Cb.Thm
